@@ -177,7 +177,9 @@ class AbstractOffPolicyAlgorithm[PolicyType: AbstractPolicy](
             state.env_state, clipped_action, key=transition_key
         )
 
-        reward = env.reward(state.env_state, action, next_env_state, key=reward_key)
+        reward = env.reward(
+            state.env_state, clipped_action, next_env_state, key=reward_key
+        )
         termination = env.terminal(next_env_state, key=terminal_key)
         truncation = env.truncate(next_env_state)
         done = termination | truncation
